@@ -142,6 +142,8 @@ def sec_judge(case, impl_line):
     """C03 predicate: from the start packet on, the target section is delivered exactly once with exactly
     its bytes (never, when its section_length exceeds 1021)"""
     toks = case.split()
+    if not any(t.startswith("#") for t in toks):
+        return None                                  # grammar-directed sequence without a target section: the model is the oracle
     truth = [t for t in toks if t.startswith("#")][0][1:]
     start, shex = truth.split(":")
     start = int(start); S = unhex(shex)
